@@ -19,7 +19,7 @@ let int_of_z = function Z0 -> 0 | Zpos p -> int_of_pos p | Zneg p -> - (int_of_p
 let parse_kind s =
   match s.[0] with
   | 'c' | 'b' | 'g' -> KDone   (* g: the harness' gate task (blocks its thread until released, then completes) *)
-  | 'p' -> KPend
+  | 'p' | 'q' -> KPend
   | 'x' -> KPanic
   | 'e' -> KStopSys (z_of_int (int_of_string (String.sub s 1 (String.length s - 1))))
   | 's' -> KStopSelf
@@ -32,7 +32,7 @@ let parse_op t =
   | "st" :: k :: _ -> OStop (nat_of_int (int_of_string k))
   | "ss" :: c :: _ -> OSysStop (z_of_int (int_of_string c))
   | ["wr"] -> OWaitRun
-  | ["j"; k] -> OJoin (nat_of_int (int_of_string k))
+  | ["j"; k] | ["jd"; k] -> OJoin (nat_of_int (int_of_string k))
   | ["d"; k] -> ODrop (nat_of_int (int_of_string k))
   | ["aw"; k; i] -> OAwait (nat_of_int (int_of_string k), nat_of_int (int_of_string i))
   | _ -> failwith ("op " ^ t)
